@@ -19,12 +19,14 @@ import math
 import os
 import random
 import warnings
+from fractions import Fraction
 
 from vlib import core, tlaval, proj, build
 
 ID = "C17"
 LS = proj.LSCALE
 EULER_GAMMA = 0.5772156649015329
+SCALES = [0, -7, 6, -1, 3, -4, 1, -6, 5, -2, 2, -5, 4, -3]
 NOLEN = -999999      # sentinel inside `newlen` (None), NOLEN + 1 = not a multiple of 1/LS
 
 QUICK = {"cfgs": ["MC_NodeAges_quick.cfg"], "precs": [1, 2], "nrand": 700}
@@ -32,22 +34,40 @@ THOROUGH = {"cfgs": ["MC_NodeAges_thorough.cfg", "MC_NodeAges_thorough_h3.cfg"],
 
 
 # ------------------------------------------------------------------ projections (syntactic only)
-def sint(v):
-    """value -> exact integer number of 1/LS units (may be negative); None -> NOLEN; otherwise NOLEN + 1"""
-    if v is None:
-        return NOLEN
-    try:
-        f = v * LS
-        if f != int(f) or abs(f) > 10 ** 8:
+class Scale(object):
+    """A case is built at length scale 2**k: real length = units * 2**k / LS, exact in floating point.
+    The projection divides the scale out again (proj.tree_graph(scale=LS / 2**k)), so TLC sees the same
+    integer tree at every scale; precisions are ABSOLUTE real numbers and are logged in the projection's
+    units (real precision / 2**k), which is what spec/NodeAges.tla compares spreads with."""
+
+    def __init__(self, k):
+        self.k = int(k)
+        self.S = Fraction(LS) / (Fraction(2) ** self.k)     # units per real length unit
+        self.mul = 2.0 ** self.k
+
+    def real(self, units):
+        return units * self.mul / LS
+
+    def age(self, v):
+        """ages / depths / lengths: integer units, -1 for None, -2 when not exactly representable (or negative)"""
+        return proj.scaled_len(v, self.S)
+
+    def sint(self, v):
+        """like age() but negative values allowed; None -> NOLEN; not representable -> NOLEN + 1"""
+        if v is None:
+            return NOLEN
+        try:
+            f = Fraction(v) * self.S
+            if f.denominator != 1 or abs(f) > 10 ** 8:
+                return NOLEN + 1
+            return int(f)
+        except Exception:
             return NOLEN + 1
-        return int(f)
-    except Exception:
-        return NOLEN + 1
 
-
-def age_int(v):
-    """ages / depths: scaled integer, -1 for None, -2 when not exactly representable"""
-    return proj.scaled_len(v, LS)
+    def prec_units(self, real_prec):
+        """absolute real precision -> [num, den] in projection units over LS (real / 2**k), exact"""
+        f = Fraction(real_prec).limit_denominator(10 ** 6) / (Fraction(2) ** self.k)
+        return [f.numerator, f.denominator]
 
 
 def rat(x):
@@ -87,21 +107,26 @@ def permuted(nested, rng):
     return [lab, tx, ln, ks]
 
 
-def nested_of_case(case):
+def nested_of_case(case, sc):
     par = case["par"]
     nl = build.num_leaves([p - 1 for p in par])
-    lens = [None if v < 0 else v / float(LS) for v in case["len"]]
+    lens = [None if v < 0 else sc.real(v) for v in case["len"]]
     return build.nested_from_parents(par, list(range(nl)), lens=lens), nl
 
 
 class Built(object):
-    def __init__(self, dendropy, nested, nl):
+    def __init__(self, dendropy, nested, nl, sc):
+        self.sc = sc
         self.ns, self.taxa = build.make_namespace(dendropy, max(1, nl))
         self.tree = build.build_tree(dendropy, nested, self.ns, self.taxa, rooted=True)
+        self.reproject()
+
+    def reproject(self):
         ids = {}
-        self.g = proj.tree_graph(self.tree, node_ids=ids, labels=False)
+        self.g = proj.tree_graph(self.tree, scale=self.sc.S, node_ids=ids, labels=False)
         self.order = ids.pop("__order__")
         self.ids = ids
+        return self.g
 
     def per_node(self, fn):
         return [fn(nd) for nd in self.order]
@@ -109,6 +134,9 @@ class Built(object):
     def reset_ages(self):
         for nd in self.order:
             nd.age = None
+
+    def nleaves(self):
+        return sum(1 for k in self.g["kids"] if not k)
 
 
 def call(fn):
@@ -118,10 +146,82 @@ def call(fn):
         return None, type(ex).__name__
 
 
+# ------------------------------------------------------------------ histories: every cache populated, then an edit without update
+EDITS = ["prune", "move", "reroot", "tips", "scale", "edge"]
+
+
+def stale_instance(dendropy, case, nested, nl, sc):
+    """A tree on which every cache the library keeps was populated (bipartition encoding, node ages, root
+    distances, depths) and whose structure / lengths were edited afterwards WITHOUT any update call.  Returns
+    (Built re-projected from the current raw pointers, name of the edit, root distances seen before the edit).
+    The choice of the edit is an input, seeded by the case."""
+    rng = random.Random(case["seed"] * 31 + 5)
+    b = Built(dendropy, nested, nl, sc)
+    t = b.tree
+    call(lambda: t.encode_bipartitions())
+    call(lambda: t.calc_node_ages(ultrametricity_precision=False))
+    before, _ = call(lambda: t.calc_node_root_distances(return_leaf_distances_only=False))
+    call(lambda: t.resolve_node_depths())
+    b.reproject()                                  # encode_bipartitions() suppresses single-child nodes
+    order = b.order
+    seed = t.seed_node
+    leaves = [nd for nd in order if not nd._child_nodes]
+    inner = [nd for nd in order if nd._child_nodes]
+    unit = sc.real(1)
+
+    def below(x, q):                               # is q inside the subtree of x
+        while q is not None:
+            if q is x:
+                return True
+            q = q._parent_node
+        return False
+    kinds = list(EDITS)
+    rng.shuffle(kinds)
+    done = ""
+    for kind in kinds:
+        if kind == "prune" and len(leaves) >= 3:
+            lf = rng.choice(leaves)
+            _, r = call(lambda: t.prune_taxa([lf.taxon]))
+        elif kind == "move":
+            cand = [(x, q) for x in order if x._parent_node is not None and len(x._parent_node._child_nodes) >= 2
+                    for q in inner if q is not x._parent_node and not below(x, q)]
+            if not cand:
+                continue
+            x, q = rng.choice(cand)
+            _, r = call(lambda: (x._parent_node.remove_child(x), q.add_child(x)))
+        elif kind == "reroot":
+            cand = [x for x in order if x._parent_node is not None and x._child_nodes and x._edge.length is not None]
+            if not cand or len(leaves) < 3:
+                continue
+            x = rng.choice(cand)
+            el = x._edge.length
+            l1 = unit if el >= 2 * unit else 0.0
+            _, r = call(lambda: t.reroot_at_edge(x._edge, length1=l1, length2=el - l1, update_bipartitions=False))
+        elif kind == "tips" and len(order) > 1:
+            for lf in leaves:
+                lf._edge.length = lf._edge.length + 2 * unit
+            r = ""
+        elif kind == "scale" and len(order) > 1:
+            _, r = call(lambda: t.scale_edges(2))
+        elif kind == "edge" and len(order) > 1:
+            x = rng.choice([nd for nd in order if nd._parent_node is not None])
+            x._edge.length = x._edge.length + unit
+            r = ""
+        else:
+            continue
+        done = kind + ((":" + r) if r else "")
+        break
+    b.reproject()
+    return b, "populated+" + (done or "none"), [v for v in (before or []) if isinstance(v, (int, float))]
+
+
 # ------------------------------------------------------------------ the events
-def ev_ages(dendropy, case, nested, nl):
+def ev_ages(dendropy, case, nested, nl, sc, stale=None):
     from dendropy.utility import constants
-    b = Built(dendropy, nested, nl)
+    if stale is None:
+        b, hist = Built(dendropy, nested, nl, sc), ""
+    else:
+        b, hist = stale[0], stale[1]
     t = b.tree
     runs = []
     precs = [("num", p) for p in case["precs"]] + [("false", None), ("neg", None), ("default", None), ("num", [0, 1])]
@@ -131,7 +231,7 @@ def ev_ages(dendropy, case, nested, nl):
         kw = dict(fn_kwargs)
         dis = False
         if kind == "num":
-            kw["ultrametricity_precision"] = p[0] / float(p[1])
+            kw["ultrametricity_precision"] = sc.real(p[0] * LS) / p[1]      # p is in projection units over LS
             prec = [p[0], p[1]]
         elif kind == "false":
             kw["ultrametricity_precision"] = False
@@ -140,22 +240,31 @@ def ev_ages(dendropy, case, nested, nl):
             kw["ultrametricity_precision"] = -1
             prec, dis = [0, 1], True
         else:
-            prec = rat(constants.DEFAULT_ULTRAMETRICITY_PRECISION)[:2]
+            prec = sc.prec_units(constants.DEFAULT_ULTRAMETRICITY_PRECISION)
         if force == 1:
             kw["is_force_max_age"] = True
         elif force == 2:
             kw["is_force_min_age"] = True
-        b.reset_ages()
+        if not hist:
+            b.reset_ages()                 # (a history keeps whatever stale ages the nodes carry)
         ret, raised = call(lambda: getattr(t, api)(**kw))
         runs.append({"api": api, "prec": prec, "dis": dis, "fmax": force == 1, "fmin": force == 2,
                      "intonly": intonly, "raised": raised,
-                     "ages": b.per_node(lambda nd: age_int(nd.age)),
-                     "ret": [age_int(v) for v in (ret or [])]})
+                     "ages": b.per_node(lambda nd: sc.age(nd.age)),
+                     "ret": [sc.age(v) for v in (ret or [])]})
 
+    p0 = precs[0]
+    if hist:
+        one("calc_node_ages", p0, 0, False, {})
+        one("calc_node_ages", ("false", None), 0, False, {})
+        one("calc_node_ages", p0, 1, False, {})
+        one("calc_node_ages", p0, 2, False, {})
+        one("node_ages", p0, 0, False, {})
+        one("internal_node_ages", p0, 0, True, {})
+        return {"action": "Ages", "g": b.g, "runs": runs, "hist": hist}
     for pk in precs:
         for force in (0, 1, 2):
             one("calc_node_ages", pk, force, False, {})
-    p0 = precs[0]
     one("calc_node_ages", p0, 0, True, {"is_return_internal_node_ages_only": True})
     one("node_ages", p0, 0, False, {})
     one("node_ages", p0, 0, True, {"internal_only": True})
@@ -166,103 +275,109 @@ def ev_ages(dendropy, case, nested, nl):
     one("internal_node_ages", ("neg", None), 0, True, {})
     one("node_ages", p0, 1, False, {})
     one("internal_node_ages", p0, 2, True, {})
-    return {"action": "Ages", "g": b.g, "runs": runs}
+    return {"action": "Ages", "g": b.g, "runs": runs, "hist": ""}
 
 
-def ev_depths_lineages(dendropy, nested, nl, lineages):
-    b = Built(dendropy, nested, nl)
+def lineage_queries(t, sc, points):
+    """[[distance in half units, observed count], ...] at every point, midway between consecutive ones, 0, beyond"""
+    pts = sorted(set(points))
+    qs = set([0.0])
+    for i, v in enumerate(pts):
+        qs.add(float(v))
+        if i + 1 < len(pts):
+            qs.add((v + pts[i + 1]) / 2.0)
+    if pts:
+        qs.add(pts[-1] + sc.real(1) / 2.0)
+    q, r2 = [], []
+    for d in sorted(qs):
+        d2 = Fraction(d) * 2 * sc.S
+        if d2.denominator != 1 or d2 > 10 ** 8:
+            continue
+        v, r = call(lambda: t.num_lineages_at(d))
+        if r:
+            r2.append(r)
+            v = -1
+        q.append([int(d2), int(v)])
+    return q, ";".join(sorted(set(r2))), qs
+
+
+def ev_depths_lineages(dendropy, nested, nl, sc, lineages, stale=None):
+    if stale is None:
+        b, hist, before = Built(dendropy, nested, nl, sc), "", []
+    else:
+        b, hist, before = stale
     t = b.tree
     raised = []
+    out = []
 
     def c(name, fn):
         v, r = call(fn)
         if r:
             raised.append(name + ":" + r)
         return v
-    rnd = c("resolve_node_depths", lambda: t.resolve_node_depths()) or {}
-    e = {"action": "Depths", "g": b.g}
-    e["rnd"] = b.per_node(lambda nd: age_int(rnd.get(nd)))
-    e["rnd_attr"] = b.per_node(lambda nd: age_int(getattr(nd, "depth", None)))
-    leafd = c("calc_node_root_distances", lambda: t.calc_node_root_distances()) or []
-    e["crd_leaf"] = [age_int(v) for v in leafd]
-    alld = c("calc_node_root_distances", lambda: t.calc_node_root_distances(return_leaf_distances_only=False)) or []
-    e["crd_all"] = [age_int(v) for v in alld]
-    e["crd_attr"] = b.per_node(lambda nd: age_int(getattr(nd, "root_distance", None)))
-    b.reset_ages()
-    rna = c("resolve_node_ages", lambda: t.resolve_node_ages()) or {}
-    e["rna"] = b.per_node(lambda nd: age_int(rna.get(nd)))
-    e["rna_attr"] = b.per_node(lambda nd: age_int(nd.age))
-    e["maxd"] = age_int(c("max_distance_from_root", lambda: t.max_distance_from_root()))
+    if hist:
+        # consumers of cached root distances first: nothing between the edit and these queries
+        q, r, _ = lineage_queries(t, sc, before + [2 * v for v in before] + [v + sc.real(1) for v in before])
+        out.append({"action": "Lineages", "g": b.g, "q": q, "raised": r, "hist": hist})
+    e = {"action": "Depths", "g": b.g, "hist": hist}
+    e["maxd"] = sc.age(c("max_distance_from_root", lambda: t.max_distance_from_root()))
     mm = c("minmax_leaf_distance_from_root", lambda: t.minmax_leaf_distance_from_root()) or (None, None)
-    e["minmax"] = [age_int(mm[0]), age_int(mm[1])]
+    e["minmax"] = [sc.age(mm[0]), sc.age(mm[1])]
+    if not hist:
+        b.reset_ages()
+    rna = c("resolve_node_ages", lambda: t.resolve_node_ages()) or {}
+    e["rna"] = b.per_node(lambda nd: sc.age(rna.get(nd)))
+    e["rna_attr"] = b.per_node(lambda nd: sc.age(nd.age))
+    rnd = c("resolve_node_depths", lambda: t.resolve_node_depths()) or {}
+    e["rnd"] = b.per_node(lambda nd: sc.age(rnd.get(nd)))
+    e["rnd_attr"] = b.per_node(lambda nd: sc.age(getattr(nd, "depth", None)))
+    leafd = c("calc_node_root_distances", lambda: t.calc_node_root_distances()) or []
+    e["crd_leaf"] = [sc.age(v) for v in leafd]
+    alld = c("calc_node_root_distances", lambda: t.calc_node_root_distances(return_leaf_distances_only=False)) or []
+    e["crd_all"] = [sc.age(v) for v in alld]
+    e["crd_attr"] = b.per_node(lambda nd: sc.age(getattr(nd, "root_distance", None)))
     e["raised"] = ";".join(raised)
-    out = [e]
-    if lineages:
-        # query points: every observed node distance, midway between consecutive ones, 0, beyond the last one
-        pts = sorted(set(v for v in alld if isinstance(v, (int, float))))
-        qs = set([0.0])
-        for i, v in enumerate(pts):
-            qs.add(float(v))
-            if i + 1 < len(pts):
-                qs.add((v + pts[i + 1]) / 2.0)
-        if pts:
-            qs.add(pts[-1] + 1.0 / (2 * LS))
-        q, r2 = [], []
-        for d in sorted(qs):
-            d2 = d * 2 * LS
-            if d2 != int(d2):
-                continue
-            v, r = call(lambda: t.num_lineages_at(d))
-            if r:
-                r2.append(r)
-                v = -1
-            q.append([int(d2), int(v)])
-        out.append({"action": "Lineages", "g": b.g, "q": q, "raised": ";".join(sorted(set(r2)))})
+    out.append(e)
+    if lineages and not hist:
+        q, r, qs = lineage_queries(t, sc, [v for v in alld if isinstance(v, (int, float))])
+        out.append({"action": "Lineages", "g": b.g, "q": q, "raised": r, "hist": ""})
         # history: the same Tree object after its edge lengths changed (scale_edges(2), exact in floating point);
         # no other call in between, so a stale root-distance cache would show.  The tree is projected again.
         _, rs = call(lambda: t.scale_edges(2))
-        g2 = proj.tree_graph(t, labels=False)
-        q, r2 = [], ([rs] if rs else [])
-        for d in sorted(qs | set(2 * x for x in qs)):
-            d2 = d * 2 * LS
-            if d2 != int(d2):
-                continue
-            v, r = call(lambda: t.num_lineages_at(d))
-            if r:
-                r2.append(r)
-                v = -1
-            q.append([int(d2), int(v)])
-        out.append({"action": "Lineages", "g": g2, "q": q, "raised": ";".join(sorted(set(r2))), "hist": "after_scale_edges"})
+        b.reproject()
+        q, r, _ = lineage_queries(t, sc, list(qs) + [2 * x for x in qs])
+        out.append({"action": "Lineages", "g": b.g, "q": q, "raised": ";".join(x for x in (rs, r) if x), "hist": "queried+scale_edges"})
     return out
 
 
-LEN_OPTS_FULL = [("dflt", {}), ("none", {"minimum_edge_length": None}),
-                 ("none_err", {"minimum_edge_length": None, "error_on_negative_edge_lengths": True}),
-                 ("zero_err", {"minimum_edge_length": 0.0, "error_on_negative_edge_lengths": True}),
-                 ("half", {"minimum_edge_length": 0.5})]
-LEN_OPTS_SMALL = [LEN_OPTS_FULL[0], LEN_OPTS_FULL[2]]
+def len_opts(sc, full):
+    opts = [("dflt", {}), ("none", {"minimum_edge_length": None}),
+            ("none_err", {"minimum_edge_length": None, "error_on_negative_edge_lengths": True}),
+            ("zero_err", {"minimum_edge_length": 0.0, "error_on_negative_edge_lengths": True}),
+            ("two_units", {"minimum_edge_length": sc.real(2)})]
+    return opts if full else [opts[0], opts[2]]
 
 
-def ev_edge_lens(dendropy, case, nested, nl, full):
+def ev_edge_lens(dendropy, case, nested, nl, sc, full):
     p = case["precs"][0]
-    modes = [("checked", {"ultrametricity_precision": p[0] / float(p[1])}),
+    modes = [("checked", {"ultrametricity_precision": sc.real(p[0] * LS) / p[1]}),
              ("disabled", {"ultrametricity_precision": False}),
              ("max", {"is_force_max_age": True}), ("min", {"is_force_min_age": True})]
     runs, g0 = [], None
     for mode, akw in modes:
-        for oname, okw in (LEN_OPTS_FULL if full else LEN_OPTS_SMALL):
-            b = Built(dendropy, nested, nl)
+        for oname, okw in len_opts(sc, full):
+            b = Built(dendropy, nested, nl, sc)
             g0 = g0 or b.g
             _, r = call(lambda: b.tree.calc_node_ages(**akw))
             if r:
                 continue           # rejected: judged in the Ages event; there are no ages to set lengths from
-            ages = b.per_node(lambda nd: age_int(nd.age))
+            ages = b.per_node(lambda nd: sc.age(nd.age))
             _, raised = call(lambda: b.tree.set_edge_lengths_from_node_ages(**okw))
-            newlen = [proj.scaled_len(nd._edge.length, LS) if nd._parent_node is None else sint(nd._edge.length)
+            newlen = [sc.age(nd._edge.length) if nd._parent_node is None else sc.sint(nd._edge.length)
                       for nd in b.order]
             mn = okw.get("minimum_edge_length", 0.0)
             runs.append({"mode": mode, "opts": oname, "ages": ages, "hasmin": mn is not None,
-                         "min": 0 if mn is None else sint(mn), "err": bool(okw.get("error_on_negative_edge_lengths", False)),
+                         "min": 0 if mn is None else sc.sint(mn), "err": bool(okw.get("error_on_negative_edge_lengths", False)),
                          "raised": raised, "newlen": newlen})
     return {"action": "EdgeLens", "g": g0, "runs": runs}
 
@@ -273,12 +388,15 @@ COLLESS = [("colless_default", None), ("colless_max", ("max",)), ("colless_true"
            ("colless_false", (False,)), ("colless_yule", ("yule",)), ("colless_pda", ("pda",))]
 
 
-def ev_stats(dendropy, nested, nl, api):
+def ev_stats(dendropy, nested, nl, sc, api, stale=None):
     """all statistics through treemeasure.* (api = 'treemeasure') or the Tree methods (api = 'Tree')"""
     from dendropy.calculate import treemeasure
-    b = Built(dendropy, nested, nl)
+    if stale is None:
+        b, hist = Built(dendropy, nested, nl, sc), ""
+    else:
+        b, hist = stale[0], stale[1]
     t = b.tree
-    n = sum(1 for k in b.g["kids"] if not k)
+    n = b.nleaves()
     fn = (lambda name: (lambda *a: getattr(treemeasure, name)(t, *a))) if api == "treemeasure" else \
          (lambda name: (lambda *a: getattr(t, name)(*a)))
     stats = []
@@ -291,7 +409,7 @@ def ev_stats(dendropy, nested, nl, api):
             raised = raised or (("harness:" + r2) if r2 else "")
         stats.append({"name": name, "v": rat(v * scale) if not raised else [0, 0, False], "raised": raised, "obs": shown})
 
-    add("length", lambda: t.length(), scale=LS)
+    add("length", lambda: t.length(), scale=float(sc.S))
     add("nbar", lambda: fn("N_bar")())
     for name, a in SACKIN:
         undo = undo_sackin_yule if name.endswith("yule") else undo_pda if name.endswith("pda") else None
@@ -301,9 +419,27 @@ def ev_stats(dendropy, nested, nl, api):
         add(name, (lambda a=a: fn("colless_tree_imbalance")(*(a or ()))), undo)
     add("b1", lambda: fn("B1")())
     add("treeness", lambda: fn("treeness")())
-    b.reset_ages()
+    if not hist:
+        b.reset_ages()
     add("gamma", lambda: fn("pybus_harvey_gamma")(), undo_gamma_sqrt)
-    return {"action": "Stats", "g": b.g, "nl": n, "api": api, "stats": stats}
+    return {"action": "Stats", "g": b.g, "nl": n, "api": api, "stats": stats, "hist": hist}
+
+
+def ev_gamma_prec(dendropy, case, nested, nl, sc):
+    """pybus_harvey_gamma with an explicit absolute precision: accept / reject on both sides of it, at the case's scale"""
+    from dendropy.calculate import treemeasure
+    b = Built(dendropy, nested, nl, sc)
+    n = b.nleaves()
+    p = case["precs"][0]
+    v, raised = call(lambda: treemeasure.pybus_harvey_gamma(b.tree, prec=sc.real(p[0] * LS) / p[1]))
+    shown = repr(v)
+    if not raised:
+        v, r2 = call(lambda: undo_gamma_sqrt(v, n))
+        raised = ("harness:" + r2) if r2 and n >= 3 else ""
+        if r2:
+            v = None
+    return {"action": "GammaPrec", "g": b.g, "nl": n, "prec": [p[0], p[1]], "raised": raised,
+            "v": rat(v) if v is not None else [0, 0, False], "obs": shown}
 
 
 def run_case(case):
@@ -311,19 +447,26 @@ def run_case(case):
     from dendropy.utility import deprecate
     warnings.simplefilter("ignore")
     deprecate.configure_deprecation_warning_behavior("ignore")     # Tree.B1() etc. are deprecated wrappers (still public)
-    nested, nl = nested_of_case(case)
+    sc = Scale(case.get("k", 0))
+    nested, nl = nested_of_case(case, sc)
     full = bool(case.get("full", True))
-    evs = [ev_ages(dendropy, case, nested, nl)]
-    evs.extend(ev_depths_lineages(dendropy, nested, nl, lineages=full or case.get("lineages", False)))
-    evs.append(ev_edge_lens(dendropy, case, nested, nl, full))
+    evs = [ev_ages(dendropy, case, nested, nl, sc)]
+    evs.extend(ev_depths_lineages(dendropy, nested, nl, sc, lineages=full))
+    evs.append(ev_edge_lens(dendropy, case, nested, nl, sc, full))
+    evs.append(ev_gamma_prec(dendropy, case, nested, nl, sc))
     if full:
-        s1 = ev_stats(dendropy, nested, nl, "treemeasure")
+        s1 = ev_stats(dendropy, nested, nl, sc, "treemeasure")
         nested2 = permuted(nested, random.Random(case["seed"]))
-        s2 = ev_stats(dendropy, nested2, nl, "Tree")
+        s2 = ev_stats(dendropy, nested2, nl, sc, "Tree")
         evs.append(s1)
         evs.append(s2)
         strip = lambda st: [{"name": x["name"], "v": x["v"], "raised": x["raised"]} for x in st]
         evs.append({"action": "StatsPerm", "g": s1["g"], "g2": s2["g"], "a": strip(s1["stats"]), "b": strip(s2["stats"])})
+        # the same queries on trees whose caches are all populated and stale (three instances of the same history,
+        # so that no query of one group refreshes a cache another group might consume)
+        evs.append(ev_stats(dendropy, nested, nl, sc, "treemeasure", stale=stale_instance(dendropy, case, nested, nl, sc)))
+        evs.extend(ev_depths_lineages(dendropy, nested, nl, sc, True, stale=stale_instance(dendropy, case, nested, nl, sc)))
+        evs.append(ev_ages(dendropy, case, nested, nl, sc, stale=stale_instance(dendropy, case, nested, nl, sc)))
     return evs
 
 
@@ -378,7 +521,10 @@ def random_case(rng, k, seed):
         d = rng.choice([-1, 1]) * rng.choice([max(1, pu - 1), pu, pu + 1, max(1, pu // 2)])
         if lens[x - 1] + d >= 0:
             lens[x - 1] += d
-    return {"kind": "random", "seed": seed, "par": par, "len": lens, "precs": [prec], "full": True, "np": npert}
+    # half of the random trees live at another length scale (2**-7 .. 2**6); the precision stays an absolute number:
+    # `prec` is given in projection units, i.e. the real precision is prec * 2**k - still a power of two
+    kexp = rng.choice(SCALES) if rng.random() < 0.5 else 0
+    return {"kind": "random", "seed": seed, "par": par, "len": lens, "precs": [prec], "full": True, "np": npert, "k": kexp}
 
 
 def model_cases(ctx, states, precs):
@@ -388,7 +534,9 @@ def model_cases(ctx, states, precs):
         base = s["np"] == 0
         cases.append({"kind": "model", "seed": ctx.seed * 7919 + k, "par": list(s["par"]), "len": list(s["len"]),
                       "precs": [[p, LS] for p in precs] if base else [[s["prec"], LS]],
-                      "full": base, "np": s["np"], "delta": s["delta"]})
+                      "full": base, "np": s["np"], "delta": s["delta"],
+                      # perturbed trees are replayed at every length scale in turn (tree depth from 1/128 to 128)
+                      "k": 0 if base else SCALES[k % len(SCALES)]})
     return cases
 
 
